@@ -1,7 +1,7 @@
 (* Proofs about the protodelim model (Msg/DelimModel.v). *)
 From Coq Require Import List Arith NArith ZArith Lia Bool.
 From Coq Require Import ZifyBool ZifyNat ZifyN.
-From PB Require Import Base.PBytes Wire.WireModel Wire.VarintP Msg.DelimModel.
+From PB Require Import Base.PBytes Wire.WireModel Wire.VarintP Msg.DelimModel Gen.DelimConsts.
 Ltac Zify.zify_post_hook ::= Z.div_mod_to_equations.
 Import ListNotations.
 Open Scope N_scope.
@@ -90,9 +90,9 @@ Proof.
 Qed.
 
 Lemma read_size_varint terr v rest : v < 2^64 ->
-  read_size terr 10 true [] (enc_varint v ++ rest) = RSBuf (enc_varint v) rest.
+  read_size terr size_arr_len true [] (enc_varint v ++ rest) = RSBuf (enc_varint v) rest.
 Proof.
-  intros Hv. unfold enc_varint. rewrite read_size_enc; [reflexivity | lia |].
+  intros Hv. unfold enc_varint, size_arr_len. rewrite read_size_enc; [reflexivity | lia |].
   change (7 * N.of_nat 10) with 70. assert (2^64 < 2^70) by (apply N.pow_lt_mono_r; lia). lia.
 Qed.
 
@@ -147,8 +147,8 @@ Theorem unmarshal_from_ref_eq terr o max s :
   unmarshal_from body_ok terr o max s = unmarshal_from_ref body_ok terr max s.
 Proof.
   intros Hlen. unfold unmarshal_from, unmarshal_from_ref.
-  pose proof (read_size_inv 10 terr true [] s) as Hr.
-  destruct (read_size terr 10 true [] s) as [buf r|e r]; [|reflexivity].
+  pose proof (read_size_inv size_arr_len terr true [] s) as Hr.
+  destruct (read_size terr size_arr_len true [] s) as [buf r|e r]; [|reflexivity].
   destruct (dec_varint buf) as [[size rest]|e]; [|reflexivity].
   destruct (effective_max max <? size); [reflexivity|].
   destruct (size <=? N.of_nat (length r)) eqn:Es.
@@ -171,8 +171,8 @@ Theorem eof_exact terr o max s :
 Proof.
   split.
   - unfold unmarshal_from.
-    pose proof (read_size_inv 10 terr true [] s) as Hr.
-    destruct (read_size terr 10 true [] s) as [buf r|e r].
+    pose proof (read_size_inv size_arr_len terr true [] s) as Hr.
+    destruct (read_size terr size_arr_len true [] s) as [buf r|e r].
     + destruct (dec_varint buf) as [[size rest]|[]]; cbn [fst]; try discriminate.
       destruct (effective_max max <? size); [discriminate|].
       destruct (is_bufio o && peek_ok o size && (size <=? max_int) && (size <=? N.of_nat (length r))).
@@ -192,12 +192,12 @@ Proof. unfold unmarshal. destruct (body_ok b); discriminate. Qed.
 
 Theorem too_large_iff terr o max s sz m :
   fst (unmarshal_from body_ok terr o max s) = DTooLarge sz m <->
-  exists buf r rest, read_size terr 10 true [] s = RSBuf buf r /\ dec_varint buf = Ok (sz, rest) /\
+  exists buf r rest, read_size terr size_arr_len true [] s = RSBuf buf r /\ dec_varint buf = Ok (sz, rest) /\
                      m = effective_max max /\ m < sz.
 Proof.
   unfold unmarshal_from. split.
-  - pose proof (read_size_inv 10 terr true [] s) as Hr.
-    destruct (read_size terr 10 true [] s) as [buf r|e r].
+  - pose proof (read_size_inv size_arr_len terr true [] s) as Hr.
+    destruct (read_size terr size_arr_len true [] s) as [buf r|e r].
     + destruct (dec_varint buf) as [[size rest]|[]] eqn:Ed; cbn [fst]; try discriminate.
       destruct (effective_max max <? size) eqn:Em.
       * cbn [fst]. intros H; inversion H; subst. exists buf, r, rest. repeat split; auto; lia.
@@ -276,7 +276,7 @@ Proof.
   pose proof (enc_varint_fuel_len 10 v) as Hl.
   fold (enc_varint v) in Hc, Hl.
   assert (Hlen : length (firstn j (enc_varint v)) = j) by (apply firstn_length_le; lia).
-  rewrite read_size_cont; [| exact Hc | lia | right; intros E; rewrite E in Hlen; cbn in Hlen; lia].
+  rewrite read_size_cont; [| exact Hc | unfold size_arr_len; lia | right; intros E; rewrite E in Hlen; cbn in Hlen; lia].
   cbn [app]. unfold dec_varint. rewrite dec_varint_cont; [reflexivity | exact Hc | lia].
 Qed.
 
@@ -391,6 +391,15 @@ Proof.
   - intros ->. rewrite app_nil_r. now apply roundtrip.
 Qed.
 End DelimProofs.
+
+(* ---------- the constants of the model are those of the source (Tier T: Gen/DelimConsts.v) ---------- *)
+Lemma delim_consts_ok :
+  default_max_size = DelimConsts.defaultMaxSize /\
+  N.of_nat size_arr_len = DelimConsts.sizeArrLen /\
+  max_int = DelimConsts.unlimitedBound /\
+  effective_max DelimConsts.unlimitedMaxSize = DelimConsts.unlimitedBound /\
+  effective_max 0 = DelimConsts.defaultMaxSize.
+Proof. repeat split; reflexivity. Qed.
 
 (* ---------- F15: with MaxSize = -1 a size above the allocator's limit panics ---------- *)
 Definition f15_stream : list byte := [xff; xff; xff; xff; xff; xff; xff; xff; x7f].
